@@ -20,12 +20,28 @@ type fakeVPC struct {
 	mu    sync.Mutex
 	resp  map[string]*vpc.VSwitch // nil = error
 	calls []string
+	tags  []string // the caller (context value) behind each call
+	// overlapped selections: the first call made on behalf of parkTag waits for release
+	parkTag string
+	parked  bool
+	release chan struct{}
 }
 
+type tagKey struct{}
+
 func (f *fakeVPC) DescribeVSwitchByID(ctx context.Context, id string) (*vpc.VSwitch, error) {
+	tag, _ := ctx.Value(tagKey{}).(string)
 	f.mu.Lock()
-	defer f.mu.Unlock()
 	f.calls = append(f.calls, id)
+	f.tags = append(f.tags, tag)
+	if tag != "" && tag == f.parkTag && !f.parked {
+		f.parked = true
+		rel := f.release
+		f.mu.Unlock()
+		<-rel
+		f.mu.Lock()
+	}
+	defer f.mu.Unlock()
 	r := f.resp[id]
 	if r == nil {
 		return nil, fmt.Errorf("not found")
@@ -55,7 +71,7 @@ func evalIn(in []*big.Int) (in2, out []*big.Int) {
 	}
 	api := &fakeVPC{resp: map[string]*vpc.VSwitch{}}
 	var ib, ob hx.B
-	ib.I(ttl, nops)
+	emitted := 0
 	for i := 0; i < nops && !d.Bad; i++ {
 		od := d.Sub()
 		var rec hx.B
@@ -77,7 +93,9 @@ func evalIn(in []*big.Int) (in2, out []*big.Int) {
 			case 2:
 				opt.VSwitchSelectPolicy = vswitch.VSwitchSelectionPolicyRandom
 			}
-			api.calls = nil
+			api.mu.Lock()
+			api.calls, api.tags = nil, nil
+			api.mu.Unlock()
 			sw, err := pool.GetOne(context.Background(), api, zid(zone), ids, opt)
 			res := 0
 			if err == nil && sw != nil {
@@ -92,6 +110,121 @@ func evalIn(in []*big.Int) (in2, out []*big.Int) {
 			}
 			rec.I(res).Ints(fetched).Ints(after)
 			ob.I(res).Ints(fetched).Ints(after)
+		case 4:
+			// two overlapping selections: A is parked in its first cloud call while B runs to completion. Recorded as
+			// two GetOne operations in the order in which they took effect (B, then A; A first if it never called the cloud)
+			type sel struct {
+				zone, policy int
+				ignore       bool
+				idn          []int
+				ids          []string
+				res          int
+				done         bool
+			}
+			var ab [2]*sel
+			for k := range ab {
+				x := &sel{zone: od.Int(), policy: od.Int(), ignore: od.Bool(), idn: od.Ints()}
+				for _, n := range x.idn {
+					x.ids = append(x.ids, vid(n))
+				}
+				ab[k] = x
+			}
+			if od.Bool() && !od.Bad {
+				// an annotated input (replay, corpus): the two records that follow are an earlier run's observation
+				d.Sub()
+				d.Sub()
+				i += 2
+			}
+			if od.Bad || d.Bad {
+				return in, nil
+			}
+			api.mu.Lock()
+			api.calls, api.tags = nil, nil
+			api.parkTag, api.parked, api.release = "A", false, make(chan struct{})
+			api.mu.Unlock()
+			var wg sync.WaitGroup
+			start := func(x *sel, tag string) {
+				wg.Add(1)
+				go func() {
+					defer wg.Done()
+					opt := &vswitch.SelectOptions{IgnoreZone: x.ignore}
+					switch x.policy {
+					case 0:
+						opt.VSwitchSelectPolicy = vswitch.VSwitchSelectionPolicyOrdered
+					case 1:
+						opt.VSwitchSelectPolicy = vswitch.VSwitchSelectionPolicyMost
+					case 2:
+						opt.VSwitchSelectPolicy = vswitch.VSwitchSelectionPolicyRandom
+					}
+					sw, err := pool.GetOne(context.WithValue(context.Background(), tagKey{}, tag), api, zid(x.zone), x.ids, opt)
+					api.mu.Lock()
+					if err == nil && sw != nil {
+						x.res = num(sw.ID)
+					}
+					x.done = true
+					api.mu.Unlock()
+				}()
+			}
+			start(ab[0], "A")
+			synctest.Wait()
+			api.mu.Lock()
+			parked := api.parked
+			if parked {
+				// B does not ask for the vSwitch A is waiting for (it would join A's lookup and wait with it)
+				pid := api.calls[len(api.calls)-1]
+				b := ab[1]
+				var idn []int
+				var ids []string
+				for j, s := range b.ids {
+					if s != pid {
+						idn, ids = append(idn, b.idn[j]), append(ids, s)
+					}
+				}
+				b.idn, b.ids = idn, ids
+			}
+			api.mu.Unlock()
+			start(ab[1], "B")
+			synctest.Wait()
+			api.mu.Lock()
+			bdone := ab[1].done
+			api.mu.Unlock()
+			close(api.release)
+			wg.Wait()
+			api.parkTag = ""
+			if !bdone {
+				return in, nil // B joined A's outstanding lookup: the two then run truly in parallel, no fixed order to record
+			}
+			var r4 hx.B
+			r4.I(4)
+			for _, x := range ab {
+				r4.I(x.zone, x.policy).Bool(x.ignore).Ints(x.idn)
+			}
+			ib.Rec(r4.I(1))
+			emitted++
+			order := []int{0, 1}
+			if parked {
+				order = []int{1, 0}
+			}
+			for _, k := range order {
+				x := ab[k]
+				tag := []string{"A", "B"}[k]
+				var fetched, after []int
+				for j, c := range api.calls {
+					if api.tags[j] == tag {
+						fetched = append(fetched, num(c))
+					}
+				}
+				for _, s := range x.ids {
+					after = append(after, num(s))
+				}
+				var r2 hx.B
+				r2.I(0, x.zone, x.policy).Bool(x.ignore).Ints(x.idn)
+				r2.I(x.res).Ints(fetched).Ints(after)
+				ob.I(x.res).Ints(fetched).Ints(after)
+				ib.Rec(&r2)
+				emitted++
+			}
+			continue
 		case 1:
 			id := od.Int()
 			pool.Block(vid(id))
@@ -112,6 +245,7 @@ func evalIn(in []*big.Int) (in2, out []*big.Int) {
 			return in, nil
 		}
 		ib.Rec(&rec)
+		emitted++
 	}
 	if d.Bad {
 		return in, nil
@@ -119,7 +253,9 @@ func evalIn(in []*big.Int) (in2, out []*big.Int) {
 	if ob.L == nil {
 		ob.L = []*big.Int{}
 	}
-	return ib.L, ob.L
+	var hd hx.B
+	hd.I(ttl, emitted)
+	return append(hd.L, ib.L...), ob.L
 }
 
 var curT *testing.T
@@ -138,6 +274,7 @@ func gen(r *hx.Rand) [][]*big.Int {
 		nz := rr.Range(1, 3)
 		ttl := []int{600, 600, 1, 30}[rr.Intn(4)]
 		nops := rr.Range(3, 30)
+		overlap := rr.Chance(1, 2) // half of the histories contain overlapping selections
 		var b hx.B
 		ops := 0
 		var body hx.B
@@ -157,7 +294,7 @@ func gen(r *hx.Rand) [][]*big.Int {
 			var rec hx.B
 			x := rr.Intn(20)
 			switch {
-			case x < 11:
+			case x < 10 || (x < 11 && !overlap):
 				k := rr.Range(0, nv+1)
 				ids := make([]int, k)
 				for j := range ids {
@@ -168,6 +305,22 @@ func gen(r *hx.Rand) [][]*big.Int {
 				}
 				policy := rr.Intn(4) // 3 = unset
 				rec.I(0, rr.Range(1, nz), policy).Bool(rr.Chance(1, 3)).Ints(ids)
+			case x < 13 && overlap:
+				// overlapping selections, mostly 'most' against anything
+				rec.I(4)
+				for k := 0; k < 2; k++ {
+					n := rr.Range(1, nv+1)
+					ids := make([]int, n)
+					for j := range ids {
+						ids[j] = rr.Range(1, nv)
+					}
+					policy := rr.Intn(4)
+					if rr.Chance(1, 2) {
+						policy = 1
+					}
+					rec.I(rr.Range(1, nz), policy).Bool(rr.Chance(1, 3)).Ints(ids)
+				}
+				rec.I(0)
 			case x < 14:
 				rec.I(1, rr.Range(1, nv))
 			case x < 17:
